@@ -2231,6 +2231,11 @@ def c12_injections():
     Y = lambda e: ("yield", e)
     I = []
     I.append(("goto", [("if", "g3", [("raw", "goto Lend")], None), Y("a + 901"), ("raw", "Lend:\n\trt.Emit(rt.EFF, 900)")]))
+    # the 'skip the rest of this iteration' idiom: a label on the closing brace of a loop body
+    I.append(("goto_loop_end_plain", [("raw", "for gi := 0; gi < n + 1; gi++ {\n\tif g3 && gi&1 == 0 {\n\t\tgoto Lnext\n\t}\n\tYield(gi + 1120)\nLnext:\n}"), Y("a + 1121")]))
+    I.append(("goto_loop_end_from_inner_loop", [("raw", "for gi := 0; gi < n + 1; gi++ {\n\tfor gj := 0; gj < 2; gj++ {\n\t\tif g3 && (gi+gj)&1 == 0 {\n\t\t\tgoto Lnext2\n\t\t}\n\t\tYield(gi*10 + gj + 1122)\n\t}\n\tYield(gi + 1123)\nLnext2:\n}"), Y("a + 1124")]))
+    I.append(("goto_range_end_from_inner_range", [("raw", "for _, gv := range []int{a, b} {\n\tfor _, gw := range []int{1, 2} {\n\t\tif g3 && (gv+gw)&1 == 0 {\n\t\t\tgoto Lnext3\n\t\t}\n\t\trt.Emit(40, gw)\n\t}\n\tYield(gv + 1125)\nLnext3:\n}"), Y("a + 1126")]))
+    I.append(("goto_loop_end_from_switch_in_inner_loop", [("raw", "for gi := 0; gi < n + 1; gi++ {\n\tgj := 0\n\tfor gj < 2 {\n\t\tgj++\n\t\tswitch (gi + gj) & 1 {\n\t\tcase 0:\n\t\t\tif g3 {\n\t\t\t\tgoto Lnext4\n\t\t\t}\n\t\t}\n\t\tYield(gi*10 + gj + 1127)\n\t}\n\trt.Emit(rt.EFF, 1128)\nLnext4:\n}"), Y("a + 1129")]))
     I.append(("goto_back", [("decl", "gc", "0"), ("raw", "Ltop:\n\tgc++"), Y("gc + 902"), ("if", "gc < 2 && g3", [("raw", "goto Ltop")], None)]))
     I.append(("labelled_break", [("raw", "Lb:\n\tfor li := 0; li < 3; li++ {\n\t\tfor lj := 0; lj < 2; lj++ {\n\t\t\tif g3 && lj == 1 {\n\t\t\t\tbreak Lb\n\t\t\t}\n\t\t\tYield(li*10 + lj + 903)\n\t\t}\n\t}")]))
     I.append(("labelled_continue", [("raw", "Lc:\n\tfor li := 0; li < 3; li++ {\n\t\tfor lj := 0; lj < 2; lj++ {\n\t\t\tif g3 && lj == 1 {\n\t\t\t\tcontinue Lc\n\t\t\t}\n\t\t\tYield(li*10 + lj + 904)\n\t\t}\n\t}")]))
@@ -2688,6 +2693,10 @@ C17_PROGRAMS = [
     ("nested_loop_forever_inner", "func G@(mask, n int) (_ Iter[int]) {\n\tfor r := 0; rt.Probe(r < n); r++ {\n\t\tc := 0\n\t\tfor {\n\t\t\tc++\n\t\t\tif c > 2 {\n\t\t\t\tbreak\n\t\t\t}\n\t\t\tif (mask>>uint(r))&1 == 1 {\n\t\t\t\tcontinue\n\t\t\t}\n\t\t\tYield(r*2 + c)\n\t\t}\n\t}\n\treturn\n}\n"),
     ("nested_inner_probe", "func G@(mask, n int) (_ Iter[int]) {\n\tr, c := 0, 0\n\tfor r < n {\n\t\tfor c < 2 {\n\t\t\trt.Probe(true)\n\t\t\tc++\n\t\t\tif (mask>>uint(r))&1 == 0 && c == 1 {\n\t\t\t\tYield(r*2 + c)\n\t\t\t}\n\t\t}\n\t\tc = 0\n\t\tr++\n\t}\n\treturn\n}\n"),
     ("nested_inner_probe_post", "func G@(mask, n int) (_ Iter[int]) {\n\tc := 0\n\tfor r := 0; r < n; r++ {\n\t\tfor ; c < 2; c++ {\n\t\t\trt.Probe(true)\n\t\t\tif (mask>>uint(r))&1 == 0 && c == 0 {\n\t\t\t\tYield(r*2 + c)\n\t\t\t}\n\t\t}\n\t\tc = 0\n\t}\n\treturn\n}\n"),
+    # delegating post statements whose delegate is often empty: iterations in which neither body nor post suspends
+    ("yieldfrom_post_continue", "func K@(i, mask int) (_ Iter[int]) {\n\tif (mask>>uint(i))&1 == 0 {\n\t\tYield(-i)\n\t}\n\treturn\n}\n\nfunc G@(mask, n int) (_ Iter[int]) {\n\ti := 0\n\tfor ; rt.Probe(i < n); YieldFrom(K@(i, mask)) {\n\t\ti++\n\t\tif (mask>>uint(i))&1 == 1 {\n\t\t\tcontinue\n\t\t}\n\t\trt.Emit(rt.EFF, i)\n\t}\n\treturn\n}\n"),
+    ("yieldfrom_post_plain", "func K@(i, mask int) (_ Iter[int]) {\n\tif (mask>>uint(i))&1 == 0 {\n\t\tYield(-i)\n\t}\n\treturn\n}\n\nfunc G@(mask, n int) (_ Iter[int]) {\n\ti := 0\n\tfor ; rt.Probe(i < n); YieldFrom(K@(i, mask)) {\n\t\ti++\n\t\trt.Emit(rt.EFF, i)\n\t}\n\treturn\n}\n"),
+    ("yieldfrom_post_switch_continue", "func K@(i, mask int) (_ Iter[int]) {\n\tif (mask>>uint(i))&1 == 0 {\n\t\tYield(-i)\n\t}\n\treturn\n}\n\nfunc G@(mask, n int) (_ Iter[int]) {\n\tfor i := 0; rt.Probe(i < n); YieldFrom(K@(i, mask)) {\n\t\ti++\n\t\tswitch (mask >> uint(i)) & 1 {\n\t\tcase 1:\n\t\t\tcontinue\n\t\t}\n\t\trt.Emit(rt.EFF, i)\n\t}\n\treturn\n}\n"),
     ("delegating_filter", "func H@(mask, n int) (_ Iter[int]) {\n\tfor i := 0; rt.Probe(i < n); i++ {\n\t\tif (mask>>uint(i))&1 == 1 {\n\t\t\tcontinue\n\t\t}\n\t\tYield(i)\n\t}\n\treturn\n}\n\nfunc G@(mask, n int) (_ Iter[int]) {\n\tYieldFrom(H@(mask, n))\n\treturn\n}\n"),
 ]
 
